@@ -3,6 +3,7 @@ package checks
 import (
 	"fmt"
 
+	"verif/internal/batch"
 	"verif/internal/docgen"
 	"verif/internal/jsonx"
 	"verif/internal/sem"
@@ -381,5 +382,80 @@ func intFormatCase(i int) *sem.Case {
 		}
 	}
 	c.Docs = append(c.Docs, docgen.Doc{V: jsonx.Obj{{K: "req", V: jsonx.N(1)}, {K: "nul", V: nil}}, Class: "nullok", Label: "null"})
+	return c
+}
+
+// definitionCycleCase: a cycle between FILES that runs over definitions - a.json#Alpha -> b.json#Beta ->
+// a.json#<Back> - where the definition the cycle comes back to holds a reference of its own to a third file
+// (code.json) next to it. The files sit in a sub-directory; the directory the generator runs in holds a decoy
+// code.json with other rules. The back definition sorts after or before the one that is in progress, holds the file
+// reference as a property, as array items or inside an allOf member, b is JSON or YAML. Whatever order the definitions are
+// reached in, `code.json` means the document next to the one the reference is written in.
+func definitionCycleCase(i int) *sem.Case {
+	back := []string{"Gamma", "Aaa", "Omega"}[i%3]
+	hold := (i / 3) % 3
+	yaml := (i/9)%2 == 1
+	fromDir := (i/18)%2 == 1
+	bfile := "b.json"
+	if yaml {
+		bfile = "b.yaml"
+	}
+	const ver = "http://json-schema.org/draft-07/schema#"
+	code := &sg.Schema{Types: []string{"string"}, MinLen: 5}
+	codeFile := &sg.Schema{Version: ver, Defs: []sg.Prop{{Name: "Code", S: code}}}
+	decoyFile := &sg.Schema{Version: ver, Defs: []sg.Prop{{Name: "Code", S: &sg.Schema{Types: []string{"string"}, MaxLen: 3}}}}
+	alpha := &sg.Schema{Types: []string{"object"}}
+	beta := &sg.Schema{Types: []string{"object"}}
+	gamma := &sg.Schema{Types: []string{"object"}}
+	codeRef := func() *sg.Schema { return &sg.Schema{Ref: "code.json#/$defs/Code", Target: code} }
+	switch hold {
+	case 0:
+		gamma.Props = []sg.Prop{{Name: "code", S: codeRef()}}
+	case 1:
+		gamma.Props = []sg.Prop{{Name: "code", S: &sg.Schema{Types: []string{"array"}, Items: codeRef(), MaxItems: 2}}}
+	default:
+		gamma.Props = []sg.Prop{{Name: "code", S: codeRef()}, {Name: "label", S: &sg.Schema{Types: []string{"string"}}}}
+		gamma.Required = []string{"label"}
+	}
+	gamma.Props = append(gamma.Props, sg.Prop{Name: "next", S: &sg.Schema{Ref: "#/$defs/Alpha", Target: alpha}})
+	alpha.Props = []sg.Prop{{Name: "beta", S: &sg.Schema{Ref: bfile + "#/$defs/Beta", Target: beta}}, {Name: "n", S: &sg.Schema{Types: []string{"integer"}, Min: sg.Fp(1)}}}
+	beta.Props = []sg.Prop{{Name: "gamma", S: &sg.Schema{Ref: "a.json#/$defs/" + back, Target: gamma}}}
+	root := &sg.Schema{Version: ver, Types: []string{"object"}, Defs: []sg.Prop{{Name: "Alpha", S: alpha}, {Name: back, S: gamma}}, Props: []sg.Prop{{Name: "alpha", S: &sg.Schema{Ref: "#/$defs/Alpha", Target: alpha}}}}
+	bFile := &sg.Schema{Version: ver, Defs: []sg.Prop{{Name: "Beta", S: beta}}}
+	bdata := jsonx.MarshalIndent(bFile.ToJSON())
+	if yaml {
+		bdata = sg.ToYAML(bFile.ToJSON(), sg.YAMLBlock)
+	}
+	c := &sem.Case{Root: root, Sig: fmt.Sprintf("definition-cycle/%s/%d/%v/%v", back, hold, yaml, fromDir), NoAuto: true, RootFile: "types/a.json", Input: "types/a.json",
+		Extra: []batch.File{{Path: "types/" + bfile, Data: bdata}, {Path: "types/code.json", Data: jsonx.MarshalIndent(codeFile.ToJSON())}, {Path: "code.json", Data: jsonx.MarshalIndent(decoyFile.ToJSON())}}}
+	if fromDir {
+		c.Cwd, c.Input = "types", "a.json"
+	}
+	wrapCode := func(v string) any {
+		if hold == 1 {
+			return []any{v}
+		}
+		return v
+	}
+	mk := func(depth int, codeV string) any {
+		g := jsonx.Obj{{K: "code", V: wrapCode(codeV)}}
+		if hold == 2 {
+			g = append(g, jsonx.KV{K: "label", V: "l"})
+		}
+		cur := any(jsonx.Obj{{K: "beta", V: jsonx.Obj{{K: "gamma", V: g}}}, {K: "n", V: jsonx.N(1)}})
+		for d := 0; d < depth; d++ {
+			gg := jsonx.Obj{{K: "next", V: cur}}
+			if hold == 2 {
+				gg = append(gg, jsonx.KV{K: "label", V: "l"})
+			}
+			cur = jsonx.Obj{{K: "beta", V: jsonx.Obj{{K: "gamma", V: gg}}}}
+		}
+		return jsonx.Obj{{K: "alpha", V: cur}}
+	}
+	for _, d := range []int{0, 1, 5} {
+		c.Docs = append(c.Docs, docgen.Doc{V: mk(d, "abcdefg"), Class: "deep", Label: fmt.Sprintf("cycle-depth-%d-code-long-enough", d)},
+			docgen.Doc{V: mk(d, "ab"), Class: "deep", Label: fmt.Sprintf("cycle-depth-%d-code-too-short", d)},
+			docgen.Doc{V: mk(d, "abcde"), Class: "deep", Label: fmt.Sprintf("cycle-depth-%d-code-at-limit", d)})
+	}
 	return c
 }
